@@ -52,7 +52,7 @@ def ref_radius(sybyl):
 
 
 def cases(tier, seed):
-    n, per, nc = (20, 20, 36) if tier == "quick" else (400, 32, 1000)
+    n, per, nc = (20, 20, 36) if tier == "quick" else (600, 32, 1500)
     out = [{"kind": "mol", "seed": seed * 5003 + i, "n": per} for i in range(n)]
     out += [{"kind": "complex", "seed": seed * 6007 + i, "variant": ["plain", "collide", "nocollide", "waterH",
                                                                      "ions", "waterclash"][i % 6]} for i in range(nc)]
